@@ -58,7 +58,14 @@ def cases(rng, tier):
             if nd >= 0:
                 # (a geometry OBJECT is the library's internal way of sharing a buffer between arrays: its size is not checked
                 #  against the buffer and the property does not speak about it; mismatches are given as lengths)
-                out.append({"kind": "flat", "lens": lens, "dtype": dt, "vseed": 1, "ndata": nd, "form": rng.randint(0, 2)})
+                out.append({"kind": "flat", "lens": lens, "dtype": dt, "vseed": 1, "ndata": nd, "form": rng.choice([0, 1, 2, 4])})
+    # row lengths given in a NARROW integer type whose range the running total leaves (100 + 100 + 60 in uint8 / int8 ...)
+    for _ in range(40 if tier == "quick" else 400):
+        ldt = rng.choice(["uint8", "int8", "int16", "uint16", "uint8", "int8"])
+        hi = int(np.iinfo(ldt).max)
+        lens = [rng.choice([0, hi // 3, hi // 2, hi // 4, 3]) if ldt in ("uint8", "int8") else rng.choice([0, 300, 3, 20000 if rng.random() < 0.3 else 5]) for _ in range(rng.randint(3, 6))]
+        out.append({"kind": "flat", "lens": lens, "dtype": rng.choice(["int64", "int8", "float64"]), "vseed": rng.randint(0, 999), "ndata": sum(lens), "form": rng.choice([1, 2]), "ldt": ldt, "big": sum(lens) > 3000})
+        out.append({"kind": "shape", "lens": lens, "ldt": ldt, "big": sum(lens) > 3000})
     # scale: many rows (more than 2**16, more than 100000) and long rows (more than 2**8 / 2**16 cells); implementation vs oracle only
     for lens in ([[rng.choice([0, 1, 2]) for _ in range(66000)], [300, 0, 65537, 1, 257]] if tier == "quick" else
                  [[rng.choice([0, 1, 2]) for _ in range(n)] for n in (65535, 65537, 100001, 200001)] + [[300, 0, 65537, 1, 257], [70000, 70000], [0] * 65537 + [5]]):
@@ -85,7 +92,7 @@ def nontrivial(p):
 def distribution(payloads):
     d = gens.shape_stats([p["lens"] for p in payloads])
     d["kinds"] = gens.hist(p["kind"] for p in payloads)
-    d["shape_argument_forms"] = gens.hist(["list", "ndarray", "(n_rows, lengths)", "RaggedShape"][p.get("form", 0)] for p in payloads if p["kind"] == "flat")
+    d["shape_argument_forms"] = gens.hist(["list", "ndarray", "(n_rows, lengths)", "RaggedShape", "other.shape"][p.get("form", 0)] for p in payloads if p["kind"] == "flat")
     d["dtypes"] = gens.hist(p.get("dtype") for p in payloads)
     d["flat_mismatching"] = sum(1 for p in payloads if p["kind"] == "flat" and p["ndata"] != sum(p["lens"]))
     return d
@@ -172,7 +179,7 @@ def run_impl(p):
     from npstructures import RaggedArray, RaggedShape
     if p["kind"] == "shape":
         def f():
-            sh = RaggedShape(p["lens"])
+            sh = RaggedShape(p["lens"] if not p.get("ldt") else np.array(p["lens"], dtype=p["ldt"]))
             o = {"k": "obs"}
             o["starts"] = guarded(lambda: [int(x) for x in sh.starts])
             o["ends"] = guarded(lambda: [int(x) for x in sh.ends])
@@ -275,10 +282,14 @@ def run_impl(p):
         def f():
             form = p.get("form", 0)
             lens = list(p["lens"])
+            ldt = p.get("ldt") or "int64"          # element type of the lengths vector (a narrow one cannot even hold the total)
             if form == 1:
-                shape = np.array(lens, dtype=np.int64)
+                shape = np.array(lens, dtype=ldt)
+            elif form == 4:
+                # the `.shape` of another array with these rows (a (n_rows, lengths) pair object handed out by the library)
+                shape = RaggedArray(np.zeros(sum(lens), dtype=np.int8), lens).shape
             elif form == 2:
-                shape = (len(lens), np.array(lens, dtype=np.int64))
+                shape = (len(lens), np.array(lens, dtype=ldt))
             elif form == 3:
                 from npstructures.raggedshape import RaggedShape
                 shape = RaggedShape(lens)
@@ -289,7 +300,7 @@ def run_impl(p):
                 data = data.tolist()          # the flat buffer as a plain Python list (its element type is then numpy's default for it)
             ra = RaggedArray(data, shape)
             # the row lengths belong to the caller: overwriting the array they came from leaves the RaggedArray as it was built
-            larr = shape if isinstance(shape, np.ndarray) else shape[1] if isinstance(shape, tuple) else None
+            larr = shape if isinstance(shape, np.ndarray) else shape[1] if (isinstance(shape, tuple) and form == 2) else None
             if larr is not None and larr.size and p["ndata"] == sum(lens):
                 larr[...] = larr[::-1].copy() + 1
             return _obs_array(ra, _other_dtype(p["dtype"]))
